@@ -257,11 +257,13 @@ Definition replace_with (v : view) (old : st) (w : rw) : st * rw :=
   let '(_, ns', d1) := insert_before_this old ns (r_dom w) in
   (ns', {| r_dom := unmount_st old d1; r_next := nx; r_panic := r_panic w |}).
 
-(** [Rndr::mount_before(item, marker)]: panics if the marker has no parent *)
+(** [Rndr::try_mount_before(item, marker)] (Vec::rebuild, after the [fix:] commit): a list whose marker
+    has no parent — the list is not mounted, e.g. the hidden side of an EitherKeepAlive or a view that
+    F-C03-a lost — keeps the new item unmounted; [mount] mounts it with the rest of the list *)
 Definition mount_before (s : st) (marker : N) (w : rw) : st * rw :=
   if memN marker (r_dom w) then
     let '(s', d) := mount_st s (Some marker) (r_dom w) in (s', with_dom w d)
-  else (s, rpanic w).
+  else (s, w).
 
 (** [rebuild_any v s w] = [AnyView::rebuild] of the erased [v] on the state [s] *)
 Fixpoint rebuild_any (v : view) (s : st) (w : rw) {struct v} : st * rw :=
